@@ -214,13 +214,15 @@ def gen_bigvar_meta_session(rng):
         if n <= 2**31 - 1 or fmt == 5:
             b = dim('b', n); ids = [tdim, b]
         else:
-            b1 = dim('b1', n // 2); b2 = dim('b2', 2); ids = [tdim, b1, b2]
+            k = 2 if n // 2 <= 2**31 - 1 else 4
+            b1 = dim('b1', n // k); b2 = dim('b2', k); ids = [tdim, b1, b2]
         var('big', t, ids)
     else:
         if n <= 2**31 - 1 or fmt == 5:
             b = dim('b', n); ids = [b]
         else:
-            b1 = dim('b1', n // 2); b2 = dim('b2', 2); ids = [b1, b2]
+            k = 2 if n // 2 <= 2**31 - 1 else 4
+            b1 = dim('b1', n // k); b2 = dim('b2', k); ids = [b1, b2]
         var('big', t, ids)
     sess.emit('* enddef %d' % f, kind='enddef')
     meta_point(sess, ms, first=True, noframe=True)
